@@ -17,6 +17,10 @@ pub struct SslConfig {
 }
 
 pub fn init() -> Result<Vec<ServerConfig<SslConfig>>, std::io::Error> {
+    #[cfg(octo_squirrel_verif)]
+    if let Some(json) = octo_squirrel::verif::proc::take_server_config() {
+        return Ok(serde_json::from_str(&json)?);
+    }
     let path = args().nth(1).unwrap_or(octo_squirrel::config::default_path());
     let mut json = String::new();
     File::open(&path).unwrap_or_else(|_| panic!("Can't find the config (by path {}). Please ensure the file path is the 1st start command arg (named 'config.json') and put the file into the same folder", &path)).read_to_string(&mut json)?;
